@@ -356,28 +356,32 @@ Proof.
     intros [|i] Hi; reflexivity.
 Qed.
 
-(* kogge_stone as the code is: exact when the carry-in is 0 *)
-Theorem kogge_stone_exact_cin0 a b :
-  bval (kogge_stone a b false) = bval a + bval b /\
-  length (kogge_stone a b false) = S (Nat.max (length a) (length b)).
+(* kogge_stone before fix fa565d3 (generate bits a & b): exact only for carry-in 0 *)
+Theorem kogge_stone_prefix_exact_cin0 a b :
+  bval (kogge_stone_with ks_init_gen_asis a b false) = bval a + bval b /\
+  length (kogge_stone_with ks_init_gen_asis a b false) = S (Nat.max (length a) (length b)).
 Proof.
   destruct (ks_with_exact ks_init_gen_asis a b false) as [H1 H2].
   - intros a' b' H. apply ks_init_asis_ok. assumption.
-  - unfold kogge_stone, ks_init_gen. rewrite H1, H2. cbn [b2z]. split; [lia|reflexivity].
+  - rewrite H1, H2. cbn [b2z]. split; [lia|reflexivity].
 Qed.
 
-(* with the carry-in folded into generate bit 0 the adder is exact for every cin *)
-Theorem kogge_stone_cinfold_exact a b c :
-  bval (kogge_stone_with ks_init_gen_cin a b c) = bval a + bval b + b2z c /\
-  length (kogge_stone_with ks_init_gen_cin a b c) = S (Nat.max (length a) (length b)).
+(* kogge_stone as the code is (carry-in folded into generate bit 0): exact for every cin *)
+Theorem kogge_stone_exact a b c :
+  bval (kogge_stone a b c) = bval a + bval b + b2z c /\
+  length (kogge_stone a b c) = S (Nat.max (length a) (length b)).
 Proof.
+  unfold kogge_stone, ks_init_gen.
   apply ks_with_exact. intros a' b' H. apply ks_init_cin_ok. assumption.
 Qed.
 
 Lemma add_ks_ok : adder_ok add_ks.
-Proof. intros a b. unfold add_ks. apply kogge_stone_exact_cin0. Qed.
+Proof.
+  intros a b. unfold add_ks. destruct (kogge_stone_exact a b false) as [H _]. rewrite H.
+  cbn [b2z]. lia.
+Qed.
 
-(* the documented carry-in is ignored by the prefix tree *)
-Theorem kogge_cin_refuted :
-  exists a b c, bval (kogge_stone a b c) <> bval a + bval b + b2z c.
+(* before the fix the documented carry-in was ignored by the prefix tree (F9) *)
+Theorem kogge_prefix_cin_refuted :
+  exists a b c, bval (kogge_stone_with ks_init_gen_asis a b c) <> bval a + bval b + b2z c.
 Proof. exists [true], [false], true. vm_compute. discriminate. Qed.
